@@ -267,6 +267,40 @@ Theorem C03_sys_no_false_success_partial : forall pol ls (s : Sys.state) c k,
 Proof. exact SysStatus.sys_eof_only_if_handler_nil. Qed.
 Print Assumptions C03_sys_no_false_success_partial.
 
+(* the wire: in every run of the system, the envelope a call takes from its queue
+   is a frame the SERVER WROTE, with the call's id (no fabrication, no cross-talk) *)
+Theorem C03_wire_carries_status : forall pol ls (s : Sys.state) c e,
+  Sys.lrun pol Sys.init ls = Some s -> In (Client.EvTake c e) (Client.log (Sys.cl s)) ->
+  (exists k, nth_error (Client.calls (Sys.cl s)) c = Some k /\ Client.k_id k = Client.eid e) /\
+  exists fr, In (Server.SvWrite fr) (Server.log (Sys.sv s)) /\ Server.f_env fr = e /\ Server.fid fr = Client.eid e.
+Proof. exact SysStatus.wire_carries_status. Qed.
+Print Assumptions C03_wire_carries_status.
+
+(* C03_sys_status, PARTIAL. In every run of the system: a non-OK status st that
+   RecvMsg returns (i.e. not Canceled / DeadlineExceeded of the caller's own
+   context, not Unavailable after a reset, not the connection's error: those are
+   other constructors, C03_client_observes) is carried - code and message - by a
+   frame with a trailer and without reset that the server wrote for THIS call's id
+   and that this call took. What is NOT proved on the product model: that every
+   such frame the server writes for a stream id is SendTrailer's for the handler
+   serving that id (then st = sstatus of what ITS handler returned, by
+   C03_server_trailer) or one of the server's own error replies. The server half
+   exists per handler (C03_server_trailer: every SvTrailer frame is trl_frame k e);
+   the missing link is a shape invariant over ALL frames pending at the server
+   ("a status-final frame is a trl_frame, a unary_reply or an error reply"), i.e.
+   sy's origin invariant (Proofs/SysC02c.v EI) generalised from OK trailers to
+   status-carrying frames of both origins; it did not fit the round. *)
+Theorem C03_sys_status_partial : forall pol ls (s : Sys.state) c k st,
+  Sys.lrun pol Sys.init ls = Some s ->
+  nth_error (Client.calls (Sys.cl s)) c = Some k ->
+  In (Client.EvRecvRet c (Client.RErr (Client.EStatus st))) (Client.log (Sys.cl s)) ->
+  exists fr, In (Server.SvWrite fr) (Server.log (Sys.sv s)) /\ Server.fid fr = Client.k_id k /\
+             In (Client.EvTake c (Server.f_env fr)) (Client.log (Sys.cl s)) /\
+             Client.estatus (Server.f_env fr) = Some st /\ Client.st_code st <> 0 /\
+             Client.etrl (Server.f_env fr) <> None /\ Client.erst (Server.f_env fr) = false.
+Proof. exact SysStatus.sys_status_from_server_frame. Qed.
+Print Assumptions C03_sys_status_partial.
+
 (* streams, non-status errors (the audit: "the stream form is not a theorem"):
    with grpc's law FromError e = (Unknown, text e, []), false for such errors, the
    caller observes Unknown with the error text *)
